@@ -104,6 +104,13 @@ PlainOfRelType(M, TS, u) ==
   /\ IsPlain(u) /\ \E e \in RelDefs(M) : e.t = u.t
   /\ \E t \in TS : t.u.t = u.t /\ t.u.id = u.id /\ t.u.rel # ""
 
+\* ... or the evaluation reads a tuple (not of a tupleset relation) whose user is such a plain object,
+\* e.g. group:2#member@group:1 with group#member: [group]
+PlainRelTuple(M, TS, o, r) ==
+  LET rk == ReadKeys(M, TS, o, r) IN
+  \E t \in TS : /\ IsPlain(t.u) /\ (\E e \in RelDefs(M) : e.t = t.u.t)
+                 /\ <<t.o, t.r>> \in rk /\ ~IsTupleset(M, t.o.t, t.r)
+
 \* Every valid conditional tuple on the evaluation's read set that cannot be evaluated belongs to an
 \* object other than the one the request names.
 CondErrorBelowRoot(M, TS, ctx, o, r) ==
@@ -151,7 +158,7 @@ CheckClass(M, TS, ev) ==
   IF DepthBound(M, TS, ev.o, ev.r) > DepthLimit THEN <<"SKIP_DEPTH", ref>>
   ELSE CASE ev.got = "T" -> IF ref = "T" THEN <<"OK_T", ref>>
                             ELSE IF ref = "F" /\ MixedCondPair(M, TS, ev.ctx, ev.o, ev.r, ev.u) THEN <<"KF_Weight2MixedCondSameObject", ref>>
-                            ELSE IF ref = "F" /\ PlainOfRelType(M, TS, ev.u) THEN <<"KF_PlainSubjectOfRelationalType", ref>>
+                            ELSE IF ref = "F" /\ (PlainOfRelType(M, TS, ev.u) \/ PlainRelTuple(M, TS, ev.o, ev.r)) THEN <<"KF_PlainSubjectOfRelationalType", ref>>
                             ELSE <<"BAD_ALLOWED", ref>>
          [] ev.got = "F" -> IF ref = "F" THEN <<"OK_F", ref>>
                             ELSE IF ref = "T" THEN
